@@ -622,6 +622,9 @@ func TestVerif_C03(t *testing.T) {
 		if np >= 4 {
 			depth = verifh.Scale(1, 2)
 		}
+		if sh == (shape{4, 2}) || sh == (shape{1, 2}) {
+			depth = verifh.Scale(2, 4) // the quick tier goes to depth 3 on one 1-piece and one 2-piece blob only
+		}
 		var rec func(prefix [][]string, d int)
 		rec = func(prefix [][]string, d int) {
 			if d == 0 {
